@@ -113,6 +113,19 @@ def run_case(cs, ctx):
                 ref_feasible = bool(rf['feasible'])
         except Exception:
             pass
+    fault_first = (not bf) and (not use_limit) and (not limit_mix) and rng.random() < 0.12
+    if fault_first:
+        # the first solve of the object fails (injected at the LP tap); every later solve is clean and must
+        # show what the reference expects
+        limit_mix = True
+        ctx.cnt('histories_whose_first_solve_fails')
+        ref_feasible = None
+        try:
+            rf = en.reference(spec, opts)
+            if rf['enumerable']:
+                ref_feasible = bool(rf['feasible'])
+        except Exception:
+            pass
     solve_kw_mode = rng.choice([0, 0, 0, 0, 1, 2, 3])
     if solve_kw_mode:
         ctx.cnt('histories_with_solve_keyword_arguments')
@@ -236,7 +249,13 @@ def run_case(cs, ctx):
                 try:
                     kw = {}
                     this_limit = limit
-                    if limit_mix:
+                    if fault_first:
+                        this_limit = None
+                        limits_used.append('injected %s' % ('fault' if nsolve == 0 else 'nothing'))
+                        TAP.faults = ([{'at': rng.randrange(3), 'kind': rng.choice(['Infeasible', 'Not Solved', 'Undefined', 'Unbounded']),
+                                        'persistent': True, 'values': 'zeros', '_rng': random.Random(cs)}] if nsolve == 0 else None)
+                        TAP.events = [] if nsolve == 0 else TAP.events
+                    elif limit_mix:
                         this_limit = rng.choice([None, 50.0, 1e-06, 1e-06])
                         limits_used.append(this_limit)
                     if this_limit is not None:
@@ -274,7 +293,8 @@ def run_case(cs, ctx):
                     pending = None
                     return
                 pending = {'facts': {'n_solves': len(evs), 'ncons': [e['ncons'] for e in evs]}, 'nsolve': nsolve,
-                           'tiny': bool(limit_mix and this_limit is not None and this_limit < 1e-3), 'limit': this_limit}
+                           'tiny': bool((limit_mix and this_limit is not None and this_limit < 1e-3) or (fault_first and nsolve == 1)),
+                           'limit': this_limit}
                 log.append(('solve', nsolve))
             else:
                 try:
